@@ -56,7 +56,7 @@ func init() {
 
 var c20Names = []string{"p0", "p1", "p2", "p3", "p4", "p5", "p6", "p7"}
 
-const c20Probe = `(function(){var g=this,o=[];['p0','p1','p2','p3','p4','p5','p6','p7','_node'].forEach(function(k){if(typeof g[k]!=='undefined')o.push(k+'='+g[k])});return o.join(';')})()`
+const c20Probe = `(function(){var g=this,o=[];['p0','p1','p2','p3','p4','p5','p6','p7','_node'].forEach(function(k){if(k in g)o.push(k+'='+g[k])});return o.join(';')})()`
 
 var c20VMCounter int64
 
